@@ -45,7 +45,9 @@ YZ = {'X': 'X', 'Y': 'Z', 'Z': 'Y'}
 DEFAULT_AXIS = {'Toric2DCode': 'y', 'Planar2DCode': 'y', 'RotatedPlanar2DCode': 'y', 'Toric3DCode': 'y',
                 'RotatedToric3DCode': 'y', 'Planar3DCode': 'z', 'RotatedPlanar3DCode': 'z', 'XCubeCode': 'z'}
 ACCESSES = ['stabilizer_matrix', 'logicals_x', 'logicals_z', 'Hx', 'd', 'qubit_index', 'x_indices']
-DIRECTIONS = [(0.1, 0.2, 0.7), (1.0, 0.0, 0.0), (0.0, 0.0, 1.0), (1 / 3, 1 / 3, 1 / 3), (0.5, 0.5, 0.0)]
+DIRECTIONS = [(0.1, 0.2, 0.7), (1.0, 0.0, 0.0), (0.0, 0.0, 1.0), (1 / 3, 1 / 3, 1 / 3), (0.5, 0.5, 0.0),
+              # every pair of equal rates with the third different, and the remaining vertex / faces
+              (0.25, 0.5, 0.25), (0.4, 0.4, 0.2), (0.2, 0.4, 0.4), (0.0, 1.0, 0.0), (0.5, 0.0, 0.5), (0.0, 0.5, 0.5)]
 
 
 def cases(tier, seed):
